@@ -286,3 +286,42 @@ Fixpoint seq_save_font (tree : omap (list N)) (ls : list (list stask)) : N + oma
   | [] => inr tree
   | ws :: r => match seq_save tree ws with inl e => inl e | inr t => seq_save_font t r end
   end.
+
+(** ** Saving with NON-atomic writes: [fs::write] = create/truncate, then write the bytes — two
+    steps of a thread, and other threads can run in between (so a truncated file is visible for a
+    while).  [Glyph::save_with_options] returns its error (objectLibs key present, encoding
+    failure) before it touches the file.  The tree is compared through look-ups. *)
+Fixpoint om_find {V} (k : str) (m : omap V) : option V :=
+  match m with
+  | [] => None
+  | (k', v) :: r => if str_eqb k k' then Some v else om_find k r
+  end.
+
+Inductive wstat := WNot | WTrunc | WDone.
+Record wstate := mkW { w_tree : omap (list N); w_stat : list wstat; w_failed : bool }.
+Definition wstep (ws : list stask) (i : nat) (st : wstate) : wstate :=
+  match nth_error ws i, nth_error (w_stat st) i with
+  | Some (p, out), Some WNot =>
+      match out with
+      | inl _ => mkW (w_tree st) (upd i WDone (w_stat st)) true
+      | inr _ => mkW (om_insert p [] (w_tree st)) (upd i WTrunc (w_stat st)) (w_failed st)
+      end
+  | Some (p, out), Some WTrunc =>
+      match out with
+      | inr b => mkW (om_insert p b (w_tree st)) (upd i WDone (w_stat st)) (w_failed st)
+      | inl _ => mkW (w_tree st) (upd i WDone (w_stat st)) true       (* unreachable *)
+      end
+  | _, _ => st
+  end.
+Definition wsteps (ws : list stask) (sched : list nat) (st : wstate) : wstate :=
+  fold_left (fun st i => wstep ws i st) sched st.
+Definition wdrain (n : nat) : list nat := flat_map (fun i => [i; i]) (seq 0 n).
+Definition par_save2 (sched : list nat) (tree : omap (list N)) (ws : list stask) : N + omap (list N) :=
+  let st := wsteps ws (sched ++ wdrain (length ws)) (mkW tree (repeat WNot (length ws)) false) in
+  if w_failed st then inl 0%N else inr (w_tree st).
+Definition tree_equiv (a b : option (omap (list N))) : Prop :=
+  match a, b with
+  | Some t, Some t' => forall p, om_find p t = om_find p t'
+  | None, None => True
+  | _, _ => False
+  end.
